@@ -154,7 +154,10 @@ def _dev_hash():
     """content hash of every compiled file of the development (what coqchk would re-check)"""
     import hashlib
     h = hashlib.sha1()
+    reg = set(re.findall(r"^(theories/\S+)\.v\s*$", open(os.path.join(COQDIR, "_CoqProject")).read(), re.M))
     for f in sorted(glob.glob(os.path.join(COQDIR, "theories", "**", "*.vo"), recursive=True)):
+        if os.path.relpath(f, COQDIR)[:-3] not in reg:
+            continue          # compiled files of units that are not (yet) part of the project do not count
         h.update(os.path.relpath(f, COQDIR).encode())
         with open(f, "rb") as fh:
             h.update(hashlib.sha1(fh.read()).digest())
